@@ -114,7 +114,8 @@ func (l *dloopSys) apply(f []string) (out string) {
 			TypeUrl: url, ResourceNamesSubscribe: m.sub, ResourceNamesUnsubscribe: m.unsub,
 			ResponseNonce: m.nonce, ErrorDetail: errDetail(m.err),
 		})
-		if respond {
+		// f[3] == "0": the server decides to answer but nothing goes out
+		if respond && !(len(f) > 3 && f[3] == "0") {
 			n := wire.Dec(f[1])
 			l.sut.ds.fail = false
 			_ = pxds.VerifSendDelta(l.sut.dcon, &discovery.DeltaDiscoveryResponse{TypeUrl: url, Nonce: n}, l.newNames(url, f[2]))
@@ -182,7 +183,7 @@ func genDloop(seed uint64, n int, outp string) {
 					out.Line("crecv", "-")
 				}
 			case 6, 7, 8:
-				out.Line("srecv", wire.Enc(nonce()), wire.EncList(wire.Subset(r, genUniverse, 1, 2)))
+				out.Line("srecv", wire.Enc(nonce()), wire.EncList(wire.Subset(r, genUniverse, 1, 2)), wire.B(!r.Chance(1, 6)))
 			default:
 				// a push: often right after a response went out, so that it overtakes the ACK of that response
 				out.Line("spush", wire.Enc(nonce()), wire.B(r.Chance(7, 8)), wire.EncList(wire.Subset(r, genUniverse, 1, 2)))
